@@ -9,6 +9,8 @@ CTX = "crates/dns-resolver/src/context.rs"
 UTYPES = "crates/dns-resolver/src/util/types.rs"
 
 TRUSTED = TRUSTED_COMMON + [
+    "resolve_forwarding / resolve_recursive: stand-ins (async-recursive, network); their results are ASSUMED to satisfy the answer-chain clause that is proved for the local arm of `resolve`",
+    "R30 drops `.instrument(tracing::..!(..))` (logging span around a future); R31 writes `Result::map(ResolvedRecord::from)` as the equivalent match",
     "Zones::resolve: assumed deterministic function of (zones, name, qtype) (`zones_resolve`); its lookup contract is proved in unit zone_lookup",
     "Zone::soa_rr / get_apex / is_authoritative: uninterpreted functions of the zone",
     "SharedCache::get: unconstrained on purpose except for the owner of the records (== the asked name; proved in unit cache)",
@@ -56,6 +58,7 @@ impl SharedCache {
     { unimplemented!() }
 }
 impl Metrics {
+    #[verifier::external_body] pub fn new() -> (r: Metrics) { unimplemented!() }
     #[verifier::external_body] pub fn zoneresult_answer(&mut self, rrs: &[ResourceRecord], zone: &Zone, question: &Question) { unimplemented!() }
     #[verifier::external_body] pub fn zoneresult_cname(&mut self, zone: &Zone) { unimplemented!() }
     #[verifier::external_body] pub fn zoneresult_delegation(&mut self, zone: &Zone) { unimplemented!() }
@@ -65,6 +68,22 @@ impl Metrics {
 }
 // the recursion limit: the capacity the question stack was created with
 pub uninterp spec fn ctx_limit<CT>(c: &Context<'_, CT>) -> nat;
+#[verifier::external_type_specification]
+#[verifier::external_body]
+pub struct ExSocketAddr(std::net::SocketAddr);
+"""
+
+# stand-ins for the two network resolvers called by `resolve` (async-recursive, sockets, timeouts: outside the verifier's reach).
+# Their results are ASSUMED to satisfy the clause that is proved for the local resolver.
+RESOLVE_STANDINS = """
+#[verifier::external_body]
+pub async fn resolve_forwarding(context: &mut Context<'_, ForwardingContextInner>, question: &Question) -> (r: Result<ResolvedRecord, ResolutionError>)
+    ensures question.qtype != QueryType::Wildcard && r is Ok ==> chain_ok(resolved_rrs(r->Ok_0), question.name),
+{ unimplemented!() }
+#[verifier::external_body]
+pub async fn resolve_recursive(context: &mut Context<'_, RecursiveContextInner>, question: &Question) -> (r: Result<ResolvedRecord, ResolutionError>)
+    ensures question.qtype != QueryType::Wildcard && r is Ok ==> chain_ok(resolved_rrs(r->Ok_0), question.name),
+{ unimplemented!() }
 """
 
 SPEC_RS = """
@@ -90,16 +109,19 @@ pub open spec fn result_rrs(r: LocalResolutionResult) -> Seq<ResourceRecord> {
         LocalResolutionResult::CNAME { rrs, .. } => rrs@,
     }
 }
+// the records a resolution result supplies for the ANSWER section
 pub open spec fn resolved_rrs(r: ResolvedRecord) -> Seq<ResourceRecord> {
     match r {
         ResolvedRecord::Authoritative { rrs, .. } => rrs@,
-        ResolvedRecord::AuthoritativeNameError { .. } => Seq::<ResourceRecord>::empty(),
         ResolvedRecord::NonAuthoritative { rrs, .. } => rrs@,
+        _ => Seq::<ResourceRecord>::empty(),
     }
 }
 """
 
 SPECS = {
+    "Context::new": {"props": ["C10"], "ret": "res", "contract": """    ensures res.wf(), res.question_stack@.len() == 0, res.zones == zones, res.cache == cache,"""},
+    "Context::done": {"props": ["C10"], "contract": ""},
     "Context::metrics": {"props": ["C01"], "contract": """    ensures *r == old(self).metrics, final(self).question_stack == old(self).question_stack, final(self).zones == old(self).zones,
         final(self).cache == old(self).cache, ctx_limit(final(self)) == ctx_limit(old(self)), final(self).metrics == *final(r),""", "mode": "assume"},
     "Context::at_recursion_limit": {"props": ["C10"], "mode": "assume", "contract": "    ensures r == (self.question_stack@.len() >= ctx_limit(self)),"},
@@ -136,8 +158,20 @@ proof { lemma_merged_step(old(priority)@, new@, idx); }"""},
     "ResolvedRecord::rrs": {"props": ["C01", "C10"], "contract": "    ensures r@ == resolved_rrs(self),"},
     "From::from": {"props": ["C01", "C09"], "contract": """    ensures
         lsr is Done ==> r == lsr->resolved,
-        resolved_rrs(r) == result_rrs(lsr), // [C01:conversion_keeps_the_records]
+        !(lsr is Delegation) ==> resolved_rrs(r) == result_rrs(lsr), // [C01:conversion_keeps_the_records]
+        lsr is Delegation ==> resolved_rrs(r).len() == 0, // [C09,C10:referral_records_are_not_answer_records]
         r is AuthoritativeNameError ==> lsr is Done && lsr->resolved is AuthoritativeNameError, // [C01:name_error_only_from_an_authoritative_zone]"""},
+}
+
+RESOLVE = {
+    "props": ["C09", "C10"],
+    "rewrites": [("R30", r"\s*\.instrument\(tracing::\w+!\((?:[^()]|\([^()]*\))*\)\)", ""),
+                 ("R31", r"resolve_local\(&mut context, question\)\.map\(ResolvedRecord::from\)",
+                  "match resolve_local(&mut context, question) { Ok(lsr__) => Ok(ResolvedRecord::from(lsr__)), Err(e__) => Err(e__) }")],
+    "contract": """    ensures
+        // C09: an answer section holds only records for the question name or its CNAME chain; C10: in chain order
+        question.qtype != QueryType::Wildcard && r.1 is Ok ==> chain_ok(resolved_rrs(r.1->Ok_0), question.name), // [C09,C10:answer_holds_only_the_question_name_and_its_alias_chain]""",
+    "entry": BU + " broadcast use group_chain;",
 }
 
 RESOLVE_LOCAL = {
@@ -289,7 +323,7 @@ def build(G):
     specs["resolve_local"] = dict(RESOLVE_LOCAL, depub=True)
     specs["RecordTypeWithData::rtype"] = {"mode": "assume", "props": [], "contract": "    ensures r == spec_rtype_of(*self),"}
     G.impl(T, "RecordTypeWithData", ["rtype"], "RecordTypeWithData::", specs)
-    G.impl(C, "<'a, CT> Context<'a, CT>", ["metrics", "at_recursion_limit", "is_duplicate_question", "push_question", "pop_question"], "Context::", specs)
+    G.impl(C, "<'a, CT> Context<'a, CT>", ["new", "done", "metrics", "at_recursion_limit", "is_duplicate_question", "push_question", "pop_question"], "Context::", specs)
     G.top_fn(U, "prioritising_merge", specs)
     G.impl(U, "ResolvedRecord", ["rrs"], "ResolvedRecord::", specs)
     G.raw("""impl vstd::std_specs::convert::FromSpecImpl<LocalResolutionResult> for ResolvedRecord {
@@ -298,10 +332,20 @@ def build(G):
 }""")
     G.impl(L, "From<LocalResolutionResult> for ResolvedRecord", ["from"], "From::", specs)
     G.top_fn(L, "resolve_local", specs)
+    # the entry point of the resolver library: dispatch on (recursive, forwarder); the local arm is resolve_local + From
+    LIB, F, R = G.src("crates/dns-resolver/src/lib.rs"), G.src("crates/dns-resolver/src/forwarding.rs"), G.src("crates/dns-resolver/src/recursive.rs")
+    G.item(U, "enum", "ProtocolMode")
+    G.item(F, "struct", "ForwardingContextInner")
+    G.item(R, "struct", "RecursiveContextInner")
+    G.item(LIB, "const", "RECURSION_LIMIT")
+    G.raw(RESOLVE_STANDINS, ("spec", "resolver stand-ins"))
+    specs["resolve"] = dict(RESOLVE, depub=True)
+    G.top_fn(LIB, "resolve", specs)
     end(G)
 
 
 CANARIES = [
+    {"name": "referral_records_returned_as_answer", "file": LOCAL, "old": "                ResolvedRecord::Delegation { ns_rrs: rrs }", "new": "                ResolvedRecord::NonAuthoritative { rrs, soa_rr: None }"},
     {"name": "cached_chain_put_before_its_alias", "file": LOCAL, "old": "                    Ok(LocalResolutionResult::Partial { mut rrs }) => {\n                        rrs_from_cache.append(&mut rrs);", "new": "                    Ok(LocalResolutionResult::Partial { mut rrs }) => {\n                        rrs.append(&mut rrs_from_cache);\n                        rrs_from_cache = rrs;"},
     {"name": "zone_alias_dropped_from_partial_chain", "file": LOCAL, "old": "                        tracing::trace!(\"got partial cname answer\");\n                        rrs.append(&mut cname_rrs);\n                        LocalResolutionResult::Partial { rrs }", "new": "                        tracing::trace!(\"got partial cname answer\");\n                        LocalResolutionResult::Partial { rrs: cname_rrs }"},
     {"name": "nonauth_single_record_goes_to_cache", "file": LOCAL, "old": "} else if question.qtype != QueryType::Wildcard && !rrs.is_empty() {", "new": "} else if question.qtype != QueryType::Wildcard && rrs.len() > 1 {"},
